@@ -295,22 +295,27 @@ theorem malloc_result (s : State) (n : Nat) :
   · right; simp [h]
 
 theorem realloc_result (s : State) (off n : Nat) :
-    ((off ≠ s.last ∨ realSize n < n ∨ s.last > s.cap ∨ realSize n > s.cap - s.last) ∧
+    ((off ≠ s.last ∨ s.last ≥ s.top ∨ realSize n < n ∨ s.last > s.cap ∨ realSize n > s.cap - s.last) ∧
       realloc s off n = (s, none)) ∨
-    (¬(off ≠ s.last ∨ realSize n < n ∨ s.last > s.cap ∨ realSize n > s.cap - s.last) ∧
+    (¬(off ≠ s.last ∨ s.last ≥ s.top ∨ realSize n < n ∨ s.last > s.cap ∨ realSize n > s.cap - s.last) ∧
       realloc s off n =
         ({ s with top := s.last + realSize n,
                   live := s.live.map (fun b => if b.off = off then { b with size := n } else b) },
          some off)) := by
   unfold realloc
-  by_cases h1 : off ≠ s.last
-  · left; simp [h1]
+  by_cases h1 : off ≠ s.last ∨ s.last ≥ s.top
+  · left
+    refine ⟨?_, by simp [h1]⟩
+    rcases h1 with h | h
+    · exact Or.inl h
+    · exact Or.inr (Or.inl h)
   · by_cases h2 : realSize n < n ∨ s.last > s.cap ∨ realSize n > s.cap - s.last
-    · left; simp [h1, h2]
+    · left; exact ⟨Or.inr (Or.inr h2), by simp [h1, h2]⟩
     · right
       constructor
-      · intro h; rcases h with h | h
-        · exact h1 h
+      · intro h; rcases h with h | h | h
+        · exact h1 (Or.inl h)
+        · exact h1 (Or.inr h)
         · exact h2 h
       · simp only [h1, if_false, h2]
 
